@@ -27,6 +27,7 @@ type ckptInput struct {
 	Runs   int   `json:"runs"`
 	Batch  int   `json:"batch"`
 	Seed   int64 `json:"seed"`
+	Stall   bool `json:"stall,omitempty"`   // the callback dawdles on the second event of every run
 	Deletes bool `json:"deletes,omitempty"` // the writer also deletes, and writes between runs
 	Restart bool `json:"restart,omitempty"` // on disk: between runs the bucket is closed, the process clock state is lost, the
 	// wall clock has gone back, and the bucket is opened again (CreateOrOpen or ReOpenExisting)
@@ -57,6 +58,7 @@ func execCkpt(in ckptInput, scratch string) (Case, error) {
 	col := b.DefaultDataStore().(*rosmar.Collection)
 	bname := b.GetName()
 	r := rand.New(rand.NewSource(in.Seed))
+	cr := rand.New(rand.NewSource(in.Seed + 1)) // the callback's own (it runs on the feed's goroutine)
 	var runTerms []any
 	doc := 0
 	finalCas := map[string]uint64{}
@@ -70,9 +72,14 @@ func execCkpt(in ckptInput, scratch string) (Case, error) {
 				if ev.Opcode == sgbucket.FeedOpMutation || ev.Opcode == sgbucket.FeedOpDeletion {
 					mu.Lock()
 					got = append(got, P(S(string(ev.Key)), N(ev.Cas)))
+					first := len(got) == 2
 					mu.Unlock()
-					if r.Intn(3) == 0 {
-						time.Sleep(time.Duration(r.Intn(200)) * time.Microsecond)
+					if in.Stall && first {
+						// a consumer that falls behind early: the rest of the batch queues up behind this call
+						time.Sleep(time.Duration(2+in.Batch/20) * time.Millisecond)
+					}
+					if cr.Intn(3) == 0 {
+						time.Sleep(time.Duration(cr.Intn(200)) * time.Microsecond)
 					}
 				}
 				return true
@@ -181,7 +188,11 @@ func runCkpt(cfg runCfg, emit func(Case)) error {
 	} else {
 		r := rand.New(rand.NewSource(cfg.seed))
 		for i := 0; i < cfg.n; i++ {
-			inputs = append(inputs, ckptInput{OnDisk: r.Intn(2) == 0, Runs: 4 + r.Intn(8), Batch: 5 + r.Intn(30), Seed: r.Int63n(1 << 40), Restart: r.Intn(2) == 0, Deletes: r.Intn(2) == 0})
+			batch := 5 + r.Intn(30)
+			if r.Intn(4) == 0 {
+				batch = 70 + r.Intn(40) // more than any initial queue capacity
+			}
+			inputs = append(inputs, ckptInput{OnDisk: r.Intn(2) == 0, Runs: 4 + r.Intn(8), Batch: batch, Stall: r.Intn(2) == 0, Seed: r.Int63n(1 << 40), Restart: r.Intn(2) == 0, Deletes: r.Intn(2) == 0})
 		}
 	}
 	for _, in := range inputs {
